@@ -94,11 +94,12 @@ Theorem C31_unknown_theme_rejected_by_stylesheet_partial : forall lum h id ov c,
 Proof. exact unknown_rejected_unless_all_overridden. Qed.
 
 (* ... full statement (forall ov) refuted: id 999 with all 18 colours overridden yields a stylesheet, also
-   as dark theme of ThemeCSS (genuine defect C31-unknown-theme-id-accepted-with-full-overrides) *)
+   as dark theme of ThemeCSS (defect C31-unknown-theme-id-accepted-with-full-overrides, fixed in d2 by b068ef37f;
+   the model checked against the code is now single_theme_rulesets_fixed) *)
 Theorem C31_unknown_theme_rejected_by_stylesheet_refuted :
   find_theme light_catalog dark_catalog 999 = None /\ lum_any "" = None /\
   single_theme_rulesets lum_any "h" 999 (Some all_red) <> None /\
-  theme_css lum_any "h" (Some 0%Z) (Some 999%Z) None (Some all_red) <> None.
+  single_theme_rulesets_fixed lum_any "h" 999 (Some all_red) = None.
 Proof. exact unknown_accepted_when_all_overridden. Qed.
 
 (* with the repair of coq/C31/fix.patch the rejection is unconditional *)
